@@ -5,6 +5,7 @@ package main
 // self-contained SMT-LIB2 query which is raced on the installed solvers.
 
 import (
+	"runtime"
 	"sync/atomic"
 	"bytes"
 	"context"
@@ -612,7 +613,17 @@ type solveResult struct {
 	Output string
 }
 
+// solverSlots bounds the number of solver processes running at once (case splits fan out widely;
+// an overloaded machine turns provable goals into timeouts).
+var solverSlots = make(chan struct{}, runtime.NumCPU()+2)
+
 func runSolver(ctx context.Context, sp solverSpec, file string, timeout time.Duration) solveResult {
+	select {
+	case solverSlots <- struct{}{}:
+	case <-ctx.Done():
+		return solveResult{Solver: sp.Name, Status: "cancelled"}
+	}
+	defer func() { <-solverSlots }()
 	start := time.Now()
 	cctx, cancel := context.WithTimeout(ctx, timeout)
 	defer cancel()
@@ -848,6 +859,7 @@ type dischargeOpts struct {
 	Workdir string
 	Par     int
 	Split   bool // retry undecided goals by case analysis on a branch condition
+	SplitTimeout time.Duration
 }
 
 // splitProve: an undecided goal is retried by case analysis - first per return path (the disjuncts of
@@ -864,7 +876,7 @@ func splitProve(c *Ctx, g *Goal, o dischargeOpts) {
 			cands = append(cands, tok)
 		}
 	}
-	for i := g.upto - 1; i >= 0 && len(cands) < 24; i-- {
+	for i := g.upto - 1; i >= 0 && len(cands) < 16; i-- {
 		it := c.Items[i]
 		if it.Kind != 0 || it.Sort != SBool || seen[it.Name] {
 			continue
@@ -886,7 +898,11 @@ func splitProve(c *Ctx, g *Goal, o dischargeOpts) {
 			b.WriteString("(assert " + e + ")\n")
 		}
 		n := atomic.AddInt32(&nq, 1)
-		r, _ := race(q[:at]+b.String()+q[at:], o.Workdir, fmt.Sprintf("%s_split%d", g.Name, n), o.Timeout, false)
+		to := o.Timeout
+		if o.SplitTimeout > 0 {
+			to = o.SplitTimeout
+		}
+		r, _ := race(q[:at]+b.String()+q[at:], o.Workdir, fmt.Sprintf("%s_split%d", g.Name, n), to, false)
 		return r.Status == "unsat"
 	}
 	proveSplit := func(extra []string) (bool, string) {
